@@ -395,6 +395,14 @@ var langs = []struct {
 	{"und", true, language.Und},
 	{"fr", true, language.French},
 	{"en-US", true, language.AmericanEnglish},
+	{"ja-JP", true, language.MustParse("ja-JP")},
+	{"en-GB", true, language.BritishEnglish},
+	{"de", true, language.German},
+	{"ko", true, language.Korean},
+	{"zh", true, language.Chinese},
+	{"ru", true, language.Russian},
+	{"el", true, language.Greek},
+	{"ar", true, language.Arabic},
 }
 
 func langIndex(name string) int {
